@@ -94,7 +94,8 @@ SyncFail(b) ==
    (false, err), the caller logs the error and treats the operation as NOT superseding - it
    is rejected (and fed back), nothing of it is applied, nothing of it is shown; the other
    operations of the request are handled normally and the transaction commits.  The
-   operation at `i` counts as not delivered by this request.                              *)
+   operation at `i` counts as not delivered by this request.  Generated only for an
+   operation that would not supersede anyway (a duplicate or an older one).               *)
 RECURSIVE FPSeqF(_, _, _, _, _, _)
 FPSeqF(en, ops, j, i, acc, rej) ==
     IF j > Len(ops) THEN [eng |-> en, acc |-> acc, rej |-> rej]
@@ -110,8 +111,13 @@ SyncReadFail(b, i) ==
         Sum(S) == IF S = {} THEN 0 ELSE LET x == CHOOSE x \in S : TRUE IN over[x] + Sum(S \ {x})
         need == Sum(pool)
         r == FPSeqF(e, b, 1, i, <<>>, <<>>)
+        before == FPSeqF(e, SubSeq(b, 1, i - 1), 1, 0, <<>>, <<>>).eng
     IN /\ rfails > 0 /\ rfails' = rfails - 1
        /\ i \in 1..Len(b)
+       \* only where it matters for C06/C13: the operation is a duplicate or an older one (it
+       \* would not supersede); whether a NEW operation whose digest cannot be read is applied or
+       \* refused is not something the properties state
+       /\ ~Supersedes(b[i], before[b[i].k])
        /\ need <= extra
        /\ extra' = extra - need
        /\ rem' = [o \in pool |-> IF used(o) >= rem[o] THEN 0 ELSE rem[o] - used(o)]
